@@ -17,6 +17,7 @@ GNext ==
                                                    \/ Do(Op("read", ((q.hi - q.lo) * d) \div 4 + 1, <<>>)))
      \/ (q.hi - q.lo > 0 /\ (Do(Op("read", q.hi - q.lo, <<>>)) \/ Do(Op("discard", q.hi - q.lo, <<>>))))
      \/ Do(Op("reset", 0, <<>>))
+     \/ Do(Op("done", 0, <<>>))
 PrintOps == Len(ops) = MaxOps => PrintT(<<"OPS", ToJson(ops)>>)
 FifoInv == q.lo <= q.hi
 =============================================================================
